@@ -15,6 +15,23 @@ TRUSTED = ['search oracle: per-gate truth tables through the real evaluator (C01
 BASES = [None, ['enum', 'XAIG'], ['enum', 'AIG'], ['str', 'XAIG'], ['str', 'AIG'], ['str', 'aig'], ['str', 'xaig'], ['str', 'Aig']]
 
 
+_DOC = None
+
+
+def doc_bound(name, basis):
+    global _DOC
+    if _DOC is None:
+        import tables_docbounds
+        _DOC = tables_docbounds.doc_bounds()
+    d = _DOC.get(name)
+    return None if d is None else d['aig' if basis == 'AIG' else 'xaig']
+
+
+def doc_easy():
+    doc_bound('add_sum_n_bits', 'XAIG')
+    return _DOC.get('add_sum_n_bits_easy')
+
+
 def gen_request(ctx, rng, big=False):
     kind = rng.choice(['add_sum2', 'add_sum3', 'add_sum_n_bits_easy', 'add_sum_n_bits', 'add_sum_n_bits', 'add_sum_two_numbers',
                        'add_sum_two_numbers_with_shift', 'add_sum_n_weighted_bits', 'add_sum_n_weighted_bits',
@@ -138,11 +155,12 @@ def check_result(ctx, r, res):
                 return
         n = len(ins)
         m = len(ret)
-        if name == 'add_sum_n_bits' and n >= 1:
-            bound = 7 * n - 3 * m if basis == 'AIG' else 4.5 * n - 2 * m
+        if name == 'add_sum_n_bits' and n >= 1 and doc_bound('add_sum_n_bits', basis):
+            A, B = doc_bound('add_sum_n_bits', basis)
+            bound = (A * n - B * m) / 2
             if len(new_gates) > bound:
                 ctx.violation('sum.size', f'{name}: {len(new_gates)} gates for n={n}, m={m}, bound {bound}', input=inp)
-        if name == 'add_sum_n_bits_easy' and n >= 1 and len(new_gates) > 5 * n:
+        if name == 'add_sum_n_bits_easy' and n >= 1 and doc_easy() and 2 * len(new_gates) > doc_easy() * n:
             ctx.violation('sum.size', f'{name}: {len(new_gates)} gates for n={n}', input=inp)
     elif name in ('add_sum_two_numbers', 'add_sum_two_numbers_with_shift'):
         A, B = a['a'], a['b']
@@ -172,9 +190,12 @@ def check_result(ctx, r, res):
                               input=inp, row=row)
                 return
         n, m = len(ins), len(outs)
-        bound = 7 * n - 3 * m if basis == 'AIG' else (5 * n - 2 * m if name.endswith('naive') else 4.5 * n - 2 * m)
-        if len(new_gates) > bound:
-            ctx.violation('sum.size', f'{name}: {len(new_gates)} gates for n={n}, m={m}, documented bound {bound}', input=inp)
+        db = doc_bound(name, basis)
+        if db and 2 * len(new_gates) > db[0] * n - db[1] * m:
+            key = 'sum.size'
+            if name == 'add_sum_n_weighted_bits' and basis != 'AIG' and 2 * len(new_gates) <= 9 * n - 3 * m:
+                key = 'sum.size.weighted_xaig_documented_bound'
+            ctx.violation(key, f'{name}: {len(new_gates)} gates for n={n}, m={m}, documented bound {(db[0] * n - db[1] * m) / 2}', input=inp)
     elif name == 'add_sum_pow2_m1':
         # out[j] = bits of weight 2^j whose total equals the number of true inputs
         ins = a['ins']
@@ -246,6 +267,8 @@ def size_search(ctx):
     here: only sizes). Weighted instances are drawn from level profiles (how many inputs per level), incl. the
     profile 4,4,3,3,3,... on which every level runs a simplified MDFA and a Stockmeyer block"""
     from cirbo.synthesis.generation.arithmetics import summation as S
+    import tables_docbounds
+    DOC = tables_docbounds.doc_bounds()      # the bounds the docstrings state NOW (also regenerated into Lean)
     rng = ctx.rng('size')
 
     def weighted(fn, ws, basis):
@@ -254,11 +277,13 @@ def size_search(ctx):
     def judge(name, basis, n, m, g, inp):
         ctx.case(json.dumps(['size', name, basis, inp]))
         ctx.count('size:' + name + ':' + basis)
-        if name == 'add_sum_n_weighted_bits_naive':
-            bound = 7 * n - 3 * m if basis == 'AIG' else 5 * n - 2 * m
-        else:
-            bound = 7 * n - 3 * m if basis == 'AIG' else 4.5 * n - 2 * m
-        if g <= bound:
+        doc = DOC.get(name)
+        if doc is None:
+            ctx.count('size:undocumented:' + name)
+            return
+        A, B = doc[basis.lower()]
+        bound = (A * n - B * m) / 2
+        if 2 * g <= A * n - B * m:
             return
         if name == 'add_sum_n_weighted_bits' and basis == 'XAIG' and 2 * g <= 9 * n - 3 * m:
             # the listed finding: the documented 4.5n - 2m is exceeded, the provable 4.5n - 1.5m is not
